@@ -124,6 +124,10 @@ def every_iteration(fn, L, node):
     Returns True / False, or None when the loop's paths cannot be enumerated."""
     hdr, plist = loop_body_paths(fn, L)
     pos = fn.cfg.pos1(node)
+    if pos is None and fn.nodes[node]["k"] in ("for", "while", "do", "forrange"):
+        # a nested loop statement: it is executed when its header (condition) block is reached
+        ih, _ = fn.cfg.loop_blocks(node)
+        pos = (ih, 0) if ih is not None else None
     if not plist or pos is None:
         return None
     return all(pos[0] in p[1:] for p in plist)
